@@ -312,6 +312,27 @@ impl Plan {
       }
     }
 
+    {
+      let mut outpoints = BTreeSet::new();
+
+      for outpoint in self
+        .parent_info
+        .iter()
+        .map(|info| info.location.outpoint)
+        .chain(
+          self
+            .reveal_satpoints
+            .iter()
+            .map(|(satpoint, _txout)| satpoint.outpoint),
+        )
+      {
+        ensure!(
+          outpoints.insert(outpoint),
+          "reveal transaction would spend output {outpoint} more than once",
+        );
+      }
+    }
+
     let satpoint = if let Some(satpoint) = self.satpoint {
       satpoint
     } else {
